@@ -6,6 +6,8 @@ mod c07;
 mod c08;
 mod c10;
 mod c11;
+mod c12;
+mod c15;
 mod c18;
 mod corpus;
 mod fmt;
@@ -43,6 +45,14 @@ fn main() {
             if let Ok(t) = incan::format_source(&src) {
                 println!("-----\n{t}-----");
             }
+        }
+        "c12" => {
+            let scratch = args.get(5).cloned().unwrap_or_else(|| "/verif/.build/scratch".to_string());
+            c12::run(&mut out, tier, seed, &scratch)
+        }
+        "c15" => {
+            let scratch = args.get(5).cloned().unwrap_or_else(|| "/verif/.build/scratch".to_string());
+            c15::run(&mut out, tier, seed, &scratch)
         }
         "c18" => {
             let scratch = args.get(5).cloned().unwrap_or_else(|| "/verif/.build/scratch".to_string());
